@@ -3,6 +3,7 @@ import FluteModel.Lemmas.RecvBounds
 import FluteModel.Lemmas.RecvToy
 import FluteModel.Lemmas.RecvGrowth
 import FluteModel.Lemmas.RecvD16
+import FluteModel.Lemmas.RecvUnbounded
 /-
   C17 - receiver memory is bounded by configuration, not by traffic: the SESSION-LEVEL registries
   (`Receiver`: objects_error, fdt_current, objects_completed, objects, fdt_receivers).
@@ -116,6 +117,42 @@ theorem registries_linear_in_datagrams (I : ObjIface σ) :
         have h2 := ih s1 s2 out2 hr
         simp only [List.length_cons]
         omega
+
+/-- **What "bounded by configuration" amounts to for `objects`** (the bound the code really gives).
+    Between cleanups nothing limits the number of objects but the number of datagrams: from ANY state,
+    after a cleanup at which every object has timed out (object time-out configured) and `k` further
+    calls, at most `k` objects are held.  The bound is "datagrams since the last effective cleanup",
+    not a function of the configuration alone. -/
+theorem objects_bounded_since_cleanup (I : ObjIface σ) (s s1 s2 : State σ) (now : Int) (stale : Stale)
+    (ev : List Ev) (ops : List Op) (out : List (Res × List Ev))
+    (ht : s.cfg.objectTimeout = true) (hall : ∀ t, stale.obj t = true)
+    (hc : cleanup I s now stale = .ok (s1, ev)) (hr : run I s1 ops = some (s2, out)) :
+    s2.objects.length ≤ ops.length := by
+  have h1 := (cleanup_releases_objects I s s1 now stale ev hc ht).2 hall
+  have h2 := (registries_linear_in_datagrams I ops s1 s2 out hr).1
+  rw [h1] at h2
+  simpa using h2
+
+/-- **... and without an object time-out it is NOT bounded by configuration** (negation witness,
+    legal configuration `object_timeout = None`): for every `n` and every configuration there is a
+    history of `n` datagrams (one packet for each of `n` TOIs, no FDT) after which `nb_objects() = n`;
+    `cleanup` then releases nothing (`cleanup_objects` returns at once). -/
+theorem objects_unbounded_without_timeout (cfg : Config) (n : Nat) :
+    ∃ s out, run Toy.iface (State.init cfg) (objOps n) = some (s, out) ∧ s.objects.length = n := by
+  obtain ⟨s, out, hr, _, _, _, hlen, _⟩ := obj_run cfg n
+  exact ⟨s, out, hr, hlen⟩
+
+/-- **FDT document bytes: no bound in the code, none in the model** (finding recv-2).  The bytes an
+    FDT instance holds are the sum of everything its writer was handed; nothing caps or clears them:
+    every `write` of `len` bytes adds `len` ... -/
+theorem fdt_bytes_accumulate (ans : FdtAns) (f : FdtRecv σ) (sbn len : Nat) :
+    (f.applyWEv ans (.write sbn len)).bytes = f.bytes + len := rfl
+
+/-- ... so for every `n` an instance holding at least `n` bytes is reachable by one writer call
+    (negation witness of a configuration-only bound on the bytes of FDT instances). -/
+theorem fdt_bytes_unbounded (I : ObjIface σ) (ans : FdtAns) (id : Nat) (chk : Bool) (n : Nat) :
+    ((FdtRecv.new I id chk).applyWEvs ans [.write 0 n]).bytes = n := by
+  simp [FdtRecv.applyWEvs, FdtRecv.applyWEv, FdtRecv.new]
 
 /-- **D16, negation witness for the unrepaired tree.**  With the `cleanup_fdt` that was in the tree
     before commit 6bdd56c, every `Receiving` instance survives every cleanup, whatever time has
